@@ -138,8 +138,8 @@ for sid, (what, needs) in sorted(NEEDS.items()):
     caught, base, demo = [], None, []
     if os.path.exists(out):
         txt = open(out, errors='replace').read()
-        caught = re.findall(r'^(C\d\d) rc=1', txt, re.M)
-        ran = re.findall(r'^(C\d\d) rc=\d', txt, re.M)
+        caught = sorted(set(re.findall(r'^(C\d\d) rc=1', txt, re.M)))
+        ran = sorted(set(re.findall(r'^(C\d\d) rc=\d', txt, re.M)))
         inconc = re.findall(r'^(C\d\d) rc=2', txt, re.M)
         m = re.search(r'(\d+)/276 stable tests pass', txt)
         base = m.group(0) if m else None
